@@ -106,7 +106,7 @@ def build(repo: str) -> Program:
         'mailbox_to_task_dict': 'dict[int, UUID]',
         'mailboxes': 'dict[int, ref[ServerMailbox]]',
         'mailbox_counter': 'int', 'port': 'int',
-        'listen_thread': 'sink[thread]',
+        'listen_thread': 'sink[listen]',
     })
     p.klass('AttachedServer', rt + 'attached.py', ['DetachedServer'], {})
     p.klass('Manager', rt + 'manager.py', ['ServerBase'], {
@@ -181,6 +181,8 @@ def build(repo: str) -> Program:
     p.externals['traceback.format_exception'] = \
         lambda run, a, k, n: PyOpaque('tb')
     p.externals['dill.dumps'] = lambda run, a, k, n: PyOpaque('bytes')
+    # the outgoing thread may or may not be alive when a handler asks
+    p.live_sinks = {'thread'}
     return p
 
 
